@@ -318,7 +318,14 @@ def case_sum_unknown(prog, method, A, style, taint_mode="abort"):
     case = Case("sum", method, f"FlodymArray.{method}", {"op": method, "x_dims": list(A), "arg": ["z"], "given_as": style})
     x = w.array("x", A)
     snaps = w.snap(x)
-    arg = ("z",) if style == "letters" else ("zz",) if style == "names" else (w.dim("z", n=3),)
+    if style == "run-of-letters":       # an identifier spelled with the array's own letters is not a dimension of it
+        arg = ("".join(A) if len(A) > 1 else A[0] + A[0] + A[0],)
+        case.inp["arg"] = list(arg)
+    elif style == "empty-string":
+        arg = ("",)
+        case.inp["arg"] = [""]
+    else:
+        arg = ("z",) if style == "letters" else ("zz",) if style == "names" else (w.dim("z", n=3),)
     kind, r = run_guarded(lambda: w.it.call_method(x, method, arg))
     if style == "objects" and method == "sum_over":
         pass       # summing over a dimension the array does not have: nothing to sum; the property asks for refusal of unknown *names*
@@ -435,8 +442,9 @@ def reduce_cases(prog, alpha, lists=None, taint_mode="abort"):
                 if len(A) <= 2:
                     yield lambda A=A, S=S: case_shares(prog, A, S, taint_mode, dtype="int")
         for method in ("sum_to", "sum_over"):
-            for style in ("letters", "names") + (("objects",) if method == "sum_to" else ()):
-                yield lambda m=method, A=A, st=style: case_sum_unknown(prog, m, A, st, taint_mode)
+            for style in ("letters", "names", "run-of-letters", "empty-string") + (("objects",) if method == "sum_to" else ()):
+                if A or style in ("letters", "names"):
+                    yield lambda m=method, A=A, st=style: case_sum_unknown(prog, m, A, st, taint_mode)
         yield lambda A=A: case_total(prog, A, taint_mode)
         yield lambda A=A: case_shares(prog, A, ("z",), taint_mode)
         if len(A) >= 2:
@@ -691,6 +699,8 @@ def case_ctor_wrong_shape(prog, A, how, cls_name="FlodymArray", taint_mode="abor
         ax = full_axes(w, A)[1:]
     elif how == "other-length":
         ax = full_axes(w, A)[:-1] + [tuple(w.items("e"))]
+    elif how == "extra-axis":
+        ax = full_axes(w, A) + [tuple(w.items("e"))]
     elif how == "number":
         ax = None
     val = SymScalar(("sym", "k")) if ax is None else w.user_ndarray("u", ax)
@@ -962,6 +972,11 @@ def misc_index_cases(prog, taint_mode="abort"):
 
 
 def illformed_cases(prog, taint_mode="abort"):
+    # an array WITHOUT dimensions holds one number: an ndarray with axes is not of its shape
+    for via in ("set_values", "__setitem__"):
+        yield lambda via=via: case_whole_ndarray_wrong_shape(prog, (), "extra-axis", via, taint_mode)
+    for cls in ("FlodymArray", "Parameter"):
+        yield lambda cls=cls: case_ctor_wrong_shape(prog, (), "extra-axis", cls, taint_mode)
     for A in [("a",), ("a", "b"), ("b", "a", "c")]:
         for how in ("transposed", "missing-axis", "extra-axis", "other-length", "flodym-array"):
             if how == "transposed" and len(A) < 2:
